@@ -437,5 +437,5 @@ static void wlPipe29() {
 HX_WORKLOAD("C27", "pipeline", wlPipe27, SF_ALL | SF_TSO, 6000000, 6000000, 1);
 HX_WORKLOAD("C27", "pipeline-handoff", wlPipe27h, SF_ALL | SF_TSO, 6000000, 6000000, 3);
 HX_WORKLOAD("C28", "pipeline-limits", wlPipe28, SF_ALL | SF_TSO, 6000000, 6000000, 1);
-HX_WORKLOAD("C28", "pipeline-saturated", wlPipe28s, SF_ALL | SF_TSO, 6000000, 6000000, 1);
+HX_WORKLOAD("C28", "pipeline-saturated", wlPipe28s, SF_ALL | SF_TSO, 6000000, 6000000, 3);
 HX_WORKLOAD("C29", "pipeline-throw", wlPipe29, SF_ALL, 6000000, 6000000, 1);
